@@ -1,6 +1,7 @@
 import Hgxv.Proofs.C07Ops
 import Hgxv.Proofs.C07Json
 import Hgxv.Proofs.C07Link
+import Hgxv.Proofs.C07Heap
 import Hgxv.Proofs.C01Ops
 import Hgxv.Proofs.C02All
 import Hgxv.Proofs.C03Inv
@@ -470,4 +471,62 @@ example : JEq mdA mdB := (C07_sameValue_iff mdA mdB (by simp [KN, KNFields, KNLi
 example : ser mdB ≠ ser mdC := by
   simp [ser, serFields, serList, mdB, mdC, sortBy, insertBy, fieldLe, KeyOrd.le]
 
+end C07Ex
+
+/-! ## metadata as objects: which slots share a dictionary / list object is irrelevant
+
+`Model/C07Heap.lean`: the metadata objects of a hypergraph as a heap of cells that hold ADDRESSES of other cells (one
+dictionary handed to several nodes / hyperedges / the hypergraph, one nested list inside two dictionaries, ...).
+`values h` are the JSON values the cells denote - what the getters return and `==` compares, i.e. the metadata of the
+content - and `serCells h` is what `serialize` of hashing.py returns for every cell when it follows the references. -/
+
+/-- `serialize` of a metadata object is `ser` of the JSON value it denotes, for every object graph: the pre-image
+sees the value-based tables of `Model/C07.lean` (each slot resolved to its value), whatever objects the slots share.
+No hypothesis: a dangling address reads as `null` on both sides; the harness only builds closed heaps. -/
+theorem C07_serialize_by_reference (h : Heap) : serCells h = (values h).map ser :=
+  serCells_eq h
+
+/-- two slots - of one hypergraph or of two, in heaps with different sharing - that denote the same value get the same
+serialization; so builds of one content from shared and from fresh equal objects have one pre-image (and by
+`C07_equal` one hash) -/
+theorem C07_sharing_irrelevant (h₁ h₂ : Heap) (r₁ r₂ : Nat)
+    (hv : look (values h₁) r₁ = look (values h₂) r₂) :
+    look (serCells h₁) r₁ = look (serCells h₂) r₂ := by
+  rw [C07_serialize_by_reference, C07_serialize_by_reference, look_map_ser, look_map_ser, hv]
+
+/-- a difference of the denoted values survives serialization (values without repeated dictionary keys), also when
+every object involved is held by other slots as well -/
+theorem C07_sharing_keeps_differences (h₁ h₂ : Heap) (r₁ r₂ : Nat)
+    (k₁ : KN (look (values h₁) r₁)) (k₂ : KN (look (values h₂) r₂))
+    (hv : ¬ JEq (look (values h₁) r₁) (look (values h₂) r₂)) :
+    look (serCells h₁) r₁ ≠ look (serCells h₂) r₂ := by
+  rw [C07_serialize_by_reference, C07_serialize_by_reference, look_map_ser, look_map_ser]
+  intro e
+  exact hv ((ser_eq_iff_JEq _ _ k₁ k₂).mp e)
+
+namespace C07Ex
+/-- cell 3: the record `{tags: L, src: "s"}` with the list object `L = ["a", "a"]` (cell 2); cell 4: a second
+dictionary `{Z: L}` holding the SAME list object; cells 5-6: a fresh equal copy of the record (its own list object);
+cells in creation order, addresses point to older cells -/
+def heap : Heap :=
+  [.atom (.str "a"), .atom (.str "s"), .arr [0, 0], .obj [("tags", 2), ("src", 1)], .obj [("Z", 2)],
+   .arr [0, 0], .obj [("tags", 5), ("src", 1)]]
+
+example : heap.closed = true := by decide
+/-- slots 3 (shared record) and 6 (fresh equal record) denote one value -/
+example : look (values heap) 3 = look (values heap) 6 := by rfl
+example : look (values heap) 3 = .obj [("tags", .arr [.str "a", .str "a"]), ("src", .str "s")] := by rfl
+/-- `serialize`: three slots holding the record (the same object twice, a fresh equal one) - three equal results -/
+example : [3, 3, 6].map (look (serCells heap)) =
+    List.replicate 3 (.obj [("src", .str "s"), ("tags", .arr [.str "a", .str "a"])]) := by rfl
+/-- the seeded guard (C07-c3) on the same three slots: the second occurrence of the OBJECT is the placeholder, and
+inside the fresh equal record the nested list (object 5) is fine but ... the result is no function of the values -/
+example : guardSlots heap [3, 3, 6] =
+    [.obj [("src", .str "s"), ("tags", .arr [.str "a", .str "a"])], placeholder,
+     .obj [("src", .str "s"), ("tags", .arr [.str "a", .str "a"])]] := by rfl
+/-- ... and hides a real difference: slot lists `[3, 4, 3]` and `[3, 4, 4]` differ in the last value, the guard prints
+the placeholder for both -/
+example : guardSlots heap [3, 4, 3] = guardSlots heap [3, 4, 4] := by rfl
+example : ¬ (look (values heap) 3 = look (values heap) 4) := by
+  intro e; simp [look, values, valuesFrom, cellVal, heap] at e
 end C07Ex
